@@ -84,17 +84,33 @@ func dissectorOf(proto string) (api.Dissector, string) {
 
 func runCost(proto string, p sx.Sx) sx.Sx {
 	side := p.List[0].Atom
-	var chunks [][]byte
+	tail := p.List[2].Atom
+	chunksOf := func(x sx.Sx) [][]byte {
+		var chunks [][]byte
+		for _, c := range x.List {
+			chunks = append(chunks, c.Bytes())
+		}
+		return chunks
+	}
+	var pre []sx.Sx
+	if len(p.List) >= 5 {
+		// growth case: the same shape at a smaller size first; the per-byte cost must not grow with the size
+		n0, alloc0, _, end0, _ := measureCost(proto, side, chunksOf(p.List[4]), tail)
+		pre = []sx.Sx{sx.A("n0"), sx.N(n0), sx.A("alloc0"), sx.U(alloc0), sx.A("end0"), sx.A(end0)}
+	}
+	n, alloc, ms, end, items := measureCost(proto, side, chunksOf(p.List[1]), tail)
+	out := []sx.Sx{sx.A("n"), sx.N(n), sx.A("alloc"), sx.U(alloc), sx.A("ms"), sx.I(ms), sx.A("end"), sx.A(end), sx.A("items"), sx.N(items)}
+	return sx.L(append(out, pre...)...)
+}
+
+func measureCost(proto, side string, chunks [][]byte, tail string) (int, uint64, int64, string, int) {
 	n := 0
-	for _, c := range p.List[1].List {
-		b := c.Bytes()
-		chunks = append(chunks, b)
+	for _, b := range chunks {
 		n += len(b)
 	}
-	tail := p.List[2].Atom
 	d, port := dissectorOf(proto)
 	stats := &api.AppStats{}
-	out := make(chan *api.OutputChannelItem, 1<<12)
+	out := make(chan *api.OutputChannelItem, 1<<17)
 	m := d.NewResponseRequestMatcher()
 	m.SetMaxTry(10)
 	conn := mock.NewConn(d, m, stats, out, "pcap0", "10.0.0.1", "40000", "10.0.0.2", port)
@@ -129,8 +145,7 @@ func runCost(proto string, p sx.Sx) sx.Sx {
 	}
 	dt := time.Since(t0)
 	runtime.ReadMemStats(&m1)
-	return sx.L(sx.A("n"), sx.N(n), sx.A("alloc"), sx.U(m1.TotalAlloc-m0.TotalAlloc), sx.A("ms"), sx.I(dt.Milliseconds()),
-		sx.A("end"), sx.A(end), sx.A("items"), sx.N(items))
+	return n, m1.TotalAlloc - m0.TotalAlloc, dt.Milliseconds(), end, items
 }
 
 var boundaryValues = func(rem int) []int64 {
@@ -278,6 +293,16 @@ func genCost(proto string, r *Rand, tier string, emit func(sx.Sx)) {
 			}
 		}
 	}
+	// growth: the same repeating shape at two sizes; the cost per byte must not grow with the size
+	pairs := [][2]int{{64, 512}}
+	if tier == "thorough" {
+		pairs = append(pairs, [2]int{256, 4096})
+	}
+	for _, g := range growthShapes(proto) {
+		for _, kk := range pairs {
+			emit(sx.L(sx.A(g.side), sx.L(sx.B(g.build(kk[1]))), sx.A("eof"), sx.A(fmt.Sprintf("growth-%s=%d", g.label, kk[1])), sx.L(sx.B(g.build(kk[0])))))
+		}
+	}
 	// well-formed streams of growing size: cost must grow linearly
 	sizes := []int{1, 10, 100, 1000}
 	if tier == "thorough" {
@@ -308,5 +333,181 @@ func genCost(proto string, r *Rand, tier string, emit func(sx.Sx)) {
 			}
 		}
 		emit(sx.L(sx.A(side), sx.L(sx.B(b.Bytes())), sx.A("eof"), sx.A(fmt.Sprintf("wellformed=%d", k))))
+	}
+}
+
+// growthShapes: repeating units, well-formed and not, whose number k scales the stream.
+type growthShape struct {
+	label string
+	side  string
+	build func(k int) []byte
+}
+
+func growthShapes(proto string) []growthShape {
+	rep := func(k int, unit []byte) []byte { return bytes.Repeat(unit, k) }
+	cat := func(parts ...[]byte) []byte {
+		var out []byte
+		for _, p := range parts {
+			out = append(out, p...)
+		}
+		return out
+	}
+	switch proto {
+	case "redis":
+		return []growthShape{
+			{"commands", "c", func(k int) []byte { return rep(k, []byte("*3\r\n$3\r\nSET\r\n$3\r\nkey\r\n$5\r\nvalue\r\n")) }},
+			{"replies", "s", func(k int) []byte { return rep(k, []byte("+OK\r\n:12\r\n$5\r\nvalue\r\n$-1\r\n*-1\r\n-ERR no\r\n")) }},
+			{"one-array", "s", func(k int) []byte { return cat([]byte(fmt.Sprintf("*%d\r\n", k)), rep(k, []byte("$5\r\nvalue\r\n"))) }},
+			{"nested-arrays", "s", func(k int) []byte { return cat(rep(k, []byte("*1\r\n")), []byte(":1\r\n")) }},
+			{"arrays-of-arrays", "s", func(k int) []byte { return cat([]byte(fmt.Sprintf("*%d\r\n", k)), rep(k, []byte("*2\r\n:1\r\n$1\r\nx\r\n"))) }},
+			{"long-bulk", "c", func(k int) []byte { return []byte(fmt.Sprintf("*2\r\n$3\r\nGET\r\n$%d\r\n%s\r\n", 16*k, strings.Repeat("0123456789abcdef", k))) }},
+		}
+	case "amqp":
+		publish := encFrame(mustSx("(m 1 60 40 ((s 0) (ss #65) (ss #6b) (bits false false)))"))
+		deliver := encFrame(mustSx("(m 1 60 60 ((ss #63) (ll 7) (bits false) (ss #65) (ss #6b)))"))
+		header := func(size uint64) []byte {
+			b := []byte{2, 0, 1, 0, 0, 0, 14, 0, 60, 0, 0}
+			b = binary.BigEndian.AppendUint64(b, size)
+			return append(b, 0, 0, 0xCE)
+		}
+		body := func(n int) []byte {
+			return cat([]byte{3, 0, 1}, be32(int64(n)), bytes.Repeat([]byte("b"), n), []byte{0xCE})
+		}
+		var out []growthShape
+		for _, m := range []struct {
+			name  string
+			frame []byte
+		}{{"publish", publish}, {"deliver", deliver}} {
+			m := m
+			for _, sz := range []struct {
+				name string
+				size func(k int) uint64
+			}{{"exact", func(k int) uint64 { return uint64(1000 * k) }}, {"zero", func(int) uint64 { return 0 }}, {"one", func(int) uint64 { return 1 }},
+				{"oneframe", func(int) uint64 { return 1000 }}, {"max", func(int) uint64 { return 1<<64 - 1 }}} {
+				sz := sz
+				out = append(out, growthShape{m.name + "-bodyframes-" + sz.name, "c", func(k int) []byte {
+					return cat(m.frame, header(sz.size(k)), rep(k, body(1000)))
+				}})
+			}
+			out = append(out, growthShape{m.name + "-messages", "c", func(k int) []byte { return rep(k, cat(m.frame, header(5), body(5))) }})
+			out = append(out, growthShape{m.name + "-headers", "c", func(k int) []byte { return cat(m.frame, rep(k, header(5)), body(5)) }})
+		}
+		out = append(out,
+			growthShape{"declares", "c", func(k int) []byte {
+				return rep(k, encFrame(mustSx("(m 1 50 10 ((s 0) (ss #71) (bits false true false false false) (t ())))")))
+			}},
+			growthShape{"heartbeats", "c", func(k int) []byte { return rep(k, []byte{8, 0, 0, 0, 0, 0, 0, 0xCE}) }},
+			growthShape{"table-entries", "c", func(k int) []byte {
+				entries := rep(k, []byte("\x01kI\x00\x00\x00\x01"))
+				payload := cat([]byte{0, 50, 0, 10, 0, 0, 1, 'q', 0}, be32(int64(len(entries))), entries)
+				return cat([]byte{1, 0, 1}, be32(int64(len(payload))), payload, []byte{0xCE})
+			}},
+		)
+		return out
+	case "kafka":
+		req := func(corr int, topics int) []byte {
+			body := cat(be16(3), be16(1), be32(int64(corr)), be16(2), []byte("cl"), be32(int64(topics)))
+			for i := 0; i < topics; i++ {
+				body = cat(body, be16(5), []byte("topic"))
+			}
+			return cat(be32(int64(len(body))), body)
+		}
+		return []growthShape{
+			{"requests", "c", func(k int) []byte {
+				var b []byte
+				for i := 0; i < k; i++ {
+					b = append(b, req(i, 1)...)
+				}
+				return b
+			}},
+			{"same-correlation", "c", func(k int) []byte { return rep(k, req(7, 1)) }},
+			{"topics", "c", func(k int) []byte { return req(1, k) }},
+			{"short-messages", "c", func(k int) []byte { return rep(k, []byte{0, 0, 0, 2, 0, 3}) }},
+		}
+	default:
+		h2 := func(build func(fr *http2.Framer, enc *hpack.Encoder, hb *bytes.Buffer)) []byte {
+			var b bytes.Buffer
+			b.WriteString(http2.ClientPreface)
+			fr := http2.NewFramer(&b, nil)
+			fr.WriteSettings()
+			var hb bytes.Buffer
+			build(fr, hpack.NewEncoder(&hb), &hb)
+			return b.Bytes()
+		}
+		reqHeaders := func(enc *hpack.Encoder, hb *bytes.Buffer, method string, extra int) []byte {
+			hb.Reset()
+			for _, f := range [][2]string{{":method", method}, {":scheme", "http"}, {":path", "/x"}, {":authority", "h"}} {
+				enc.WriteField(hpack.HeaderField{Name: f[0], Value: f[1]})
+			}
+			for i := 0; i < extra; i++ {
+				enc.WriteField(hpack.HeaderField{Name: fmt.Sprintf("x-h%d", i), Value: "v"})
+			}
+			return append([]byte{}, hb.Bytes()...)
+		}
+		return []growthShape{
+			{"requests", "c", func(k int) []byte { return rep(k, []byte("GET /r HTTP/1.1\r\nHost: h\r\nX-A: b\r\n\r\n")) }},
+			{"responses", "s", func(k int) []byte { return rep(k, []byte("HTTP/1.1 200 OK\r\nContent-Length: 2\r\n\r\nok")) }},
+			{"headers", "c", func(k int) []byte {
+				return cat([]byte("GET /r HTTP/1.1\r\nHost: h\r\n"), rep(k, []byte("X-Header: value\r\n")), []byte("\r\n"))
+			}},
+			{"same-cookie", "c", func(k int) []byte {
+				return cat([]byte("GET /r HTTP/1.1\r\nHost: h\r\n"), rep(k, []byte("Cookie: a=b; c=d\r\n")), []byte("\r\n"))
+			}},
+			{"chunks", "c", func(k int) []byte {
+				return cat([]byte("POST /p HTTP/1.1\r\nHost: h\r\nTransfer-Encoding: chunked\r\n\r\n"), rep(k, []byte("4\r\nbody\r\n")), []byte("0\r\n\r\n"))
+			}},
+			{"query-params", "c", func(k int) []byte {
+				return cat([]byte("GET /r?"), rep(k, []byte("a=b&")), []byte("z=1 HTTP/1.1\r\nHost: h\r\n\r\n"))
+			}},
+			{"h2-data-frames", "c", func(k int) []byte {
+				return h2(func(fr *http2.Framer, enc *hpack.Encoder, hb *bytes.Buffer) {
+					fr.WriteHeaders(http2.HeadersFrameParam{StreamID: 1, BlockFragment: reqHeaders(enc, hb, "POST", 0), EndHeaders: true})
+					for i := 0; i < k; i++ {
+						fr.WriteData(1, i == k-1, []byte("0123456789abcdef0123456789abcdef0123456789abcdef0123456789abcdef"))
+					}
+				})
+			}},
+			{"h2-streams", "c", func(k int) []byte {
+				return h2(func(fr *http2.Framer, enc *hpack.Encoder, hb *bytes.Buffer) {
+					for i := 0; i < k; i++ {
+						fr.WriteHeaders(http2.HeadersFrameParam{StreamID: uint32(2*i + 1), BlockFragment: reqHeaders(enc, hb, "GET", 0), EndHeaders: true, EndStream: true})
+					}
+				})
+			}},
+			{"h2-open-streams", "c", func(k int) []byte {
+				return h2(func(fr *http2.Framer, enc *hpack.Encoder, hb *bytes.Buffer) {
+					for i := 0; i < k; i++ {
+						fr.WriteHeaders(http2.HeadersFrameParam{StreamID: uint32(2*i + 1), BlockFragment: reqHeaders(enc, hb, "POST", 0), EndHeaders: true})
+						fr.WriteData(uint32(2*i+1), false, []byte("partial"))
+					}
+				})
+			}},
+			{"h2-header-fields", "c", func(k int) []byte {
+				return h2(func(fr *http2.Framer, enc *hpack.Encoder, hb *bytes.Buffer) {
+					block := reqHeaders(enc, hb, "GET", k)
+					first := true
+					for len(block) > 0 {
+						n := len(block)
+						if n > 16000 {
+							n = 16000
+						}
+						if first {
+							fr.WriteHeaders(http2.HeadersFrameParam{StreamID: 1, BlockFragment: block[:n], EndHeaders: n == len(block), EndStream: true})
+							first = false
+						} else {
+							fr.WriteContinuation(1, n == len(block), block[:n])
+						}
+						block = block[n:]
+					}
+				})
+			}},
+			{"h2-pings", "c", func(k int) []byte {
+				return h2(func(fr *http2.Framer, enc *hpack.Encoder, hb *bytes.Buffer) {
+					for i := 0; i < k; i++ {
+						fr.WritePing(false, [8]byte{1, 2, 3})
+					}
+				})
+			}},
+		}
 	}
 }
